@@ -378,6 +378,12 @@ def main(argv):
 
     rc = 0
     out_lines = []
+    # a per-function solver give-up (rlimit) next to definite failures of the same property does not hide those failures
+    soft = [u for u in undecided if ('rlimit' in u or 'Resource limit' in u) and 'vacuity' not in u]
+    if violations and len(soft) == len(undecided):
+        for u in undecided:
+            out_lines.append('NOTE property=%s: %s' % (pid, u))
+        undecided = []
     for f in known_hit:
         out_lines.append('KNOWN-FINDING: property=%s %s — %s' % (pid, f['obligation'], known_names[f['obligation']].get('what', '')))
     if undecided:
